@@ -40,7 +40,49 @@ class C11:
     assumptions = ["grey: doubled separator inside a path, non-canonical index spellings (+1, 0x1, 01, quoted index), titles "
                    "differing only in case", "the tree is enumerated from the reference model (validated by C01)"]
 
+    # schema-level resolver (cfg_set_validate_func): a path through sections addresses the declaration that instances created
+    # later are copied from (multi sections) or the one existing instance (single sections); broken paths register nothing
+    def check_schema_resolver(self, case, get_ex):
+        s = Script()
+        emit_schema(s, 0, HAND["c11"])
+        s.add("init", 1, 0, case["flags"])
+        if case.get("pre"):
+            s.add("parse_buf", 1, hx(C11_TEXT))        # instances of the multi sections exist already
+        for p in case["register"]:
+            s.add("setvalidate", 1, hx(p), 1)
+        s.add("cbfail", 0)
+        ip = s.add("parse_buf", 1, hx(case["text"]))
+        s.add("free", 1)
+        r = get_ex("asan").run(s)
+        t = by_index(r.trace)
+        if not r.clean:
+            return Outcome(failure=Failure("schema-resolver/die/%s" % r.death(), r.stderr.decode("latin-1")[:1500]), classes=["schema-resolver"])
+        got = [bytes.fromhex(e["opt"]).decode() for e in t[ip].get("cb", []) if e["k"] == "valid"]
+        fail = None
+        if t[ip]["rc"] != 0:
+            fail = Failure("schema-resolver/rejected", "text %r rejected: %r" % (case["text"], t[ip].get("diag")))
+        elif got != case["expect"]:
+            fail = Failure("schema-resolver/callbacks", "registered %r (instances existing before: %r), parsed %r: validation callbacks ran for %r, expected %r" % (
+                case["register"], bool(case.get("pre")), case["text"], got, case["expect"]))
+        return Outcome(classes=["schema-resolver"], nontrivial=True, failure=fail, sample={"register": case["register"], "text": case["text"]})
+
+    def schema_cases(self):
+        text = "multi { x = 5 }\ntm new { x = 6 deep dd { d = 7 } }\nsingle { x = 8 mi { w = 9 } inner { z = 10 } }\ni = 11\n"
+        good = ["multi|x", "tm|x", "tm|deep|d", "single|x", "single|mi|w", "single|inner|z", "i"]
+        expect = ["x", "x", "d", "x", "w", "z", "i"]
+        out = []
+        for pre in (False, True):
+            for flags in (0, F_NOCASE):
+                out.append({"kind": "schema", "flags": flags, "pre": pre, "register": good, "text": text, "expect": expect})
+                for k, p in enumerate(good):
+                    out.append({"kind": "schema", "flags": flags, "pre": pre, "register": [p], "text": text, "expect": [expect[k]]})
+                broken = ["multi|", "|multi|x|", "nosuch|x", "i|x", "multi|x|", "tm|deep|", "single|nosuch", "multi|nosuch|x", "", "|", "tm=a|x", "multi=0|x", "single|inner|z|"]
+                out.append({"kind": "schema", "flags": flags, "pre": pre, "register": broken, "text": text, "expect": []})
+        return out
+
     def check_case(self, case, get_ex):
+        if case.get("kind") == "schema":
+            return self.check_schema_resolver(case, get_ex)
         schema = HAND[case["schema"]] if isinstance(case["schema"], str) else case["schema"]
         flags = case["flags"]
         text = case["text"] if "text" in case else gen_text.render(case["tokens"])
@@ -281,6 +323,7 @@ class C11:
     def run(self, r):
         r.run_cases([{"schema": "c11", "flags": 0, "text": C11_TEXT}, {"schema": "c11", "flags": F_NOCASE, "text": C11_TEXT},
                      {"schema": "c11", "flags": 0, "text": ""}], chunksize=1)
+        r.run_cases(self.schema_cases(), chunksize=2)
         r.run_hypothesis(6000 if r.tier == "quick" else 100000)
 
 
